@@ -128,3 +128,19 @@ Example token_ledger_of_a_small_history :
   /\ produced_in P0 init_state ops_tokens = [TOut 3%N; TOut 2%N; TOut 1%N]
   /\ Forall tok_op ops_tokens.
 Proof. vm_compute. repeat split; try reflexivity. repeat constructor. Qed.
+
+(** QuietGroups: three quiet children in two groups (capacities 1 and 2, so m = 2 = B): the
+    second group has B entries queued, so the first poll exhausts its budget there and wakes
+    its task once; the second poll (number m / B + 1) is silent — the bound of
+    C14_consecutive_polls_reach_silence is tight *)
+From FB Require Import QuietProofs QuietGroups.
+Example quiet_two_groups_second_poll_is_silent :
+  let s := reach P0 ops_pending in
+  let u := coll_fu (st_coll s) in
+  let w := begin_op no_inj (st_world s) in
+  map (ql w) (blks (groups u)) = [1; 2]
+  /\ twakes (log (snd (fu_poll_next P0 false u 7 w))) = 1
+  /\ (let '(u1, w1) := polls P0 false [7] u w in
+      map (ql w1) (blks (groups u1)) = [0; 0]
+      /\ twakes (log (snd (fu_poll_next P0 false u1 8 w1))) = twakes (log w1)).
+Proof. vm_compute. repeat split; reflexivity. Qed.
